@@ -652,3 +652,64 @@ func (f *Flat) MustPrecedeNil(A map[int]bool, target int) bool {
 	}
 	return !f.ReachNil([]int{f.Entry}, func(n *GNode) bool { return A[n.ID] })[target]
 }
+
+// reachingDef is one assignment of a variable that can be the last one before a node.
+type reachingDef struct {
+	Node int
+	Rhs  ast.Expr // the assigned expression (for a multi-value call: the call), nil for declarations without value
+}
+
+// ReachingDefs returns the assignments of o that reach node id (searching backwards, stopping at each assignment).
+func (f *Flat) ReachingDefs(id int, o types.Object) []reachingDef {
+	info := f.Pkg.TypesInfo
+	var res []reachingDef
+	seen := map[int]bool{}
+	work := append([]int{}, f.Nodes[id].Preds...)
+	for len(work) > 0 {
+		n := f.Nodes[work[len(work)-1]]
+		work = work[:len(work)-1]
+		if seen[n.ID] {
+			continue
+		}
+		seen[n.ID] = true
+		assigned := false
+		if n.Ast != nil {
+			switch st := n.Ast.(type) {
+			case *ast.AssignStmt:
+				for i, l := range st.Lhs {
+					if objOf(info, l) == o {
+						assigned = true
+						switch {
+						case len(st.Lhs) == len(st.Rhs):
+							res = append(res, reachingDef{n.ID, st.Rhs[i]})
+						case len(st.Rhs) == 1:
+							res = append(res, reachingDef{n.ID, st.Rhs[0]})
+						}
+					}
+				}
+			case *ast.ValueSpec:
+				for i, nm := range st.Names {
+					if info.Defs[nm] == o {
+						assigned = true
+						if len(st.Values) == len(st.Names) {
+							res = append(res, reachingDef{n.ID, st.Values[i]})
+						} else {
+							res = append(res, reachingDef{n.ID, nil})
+						}
+					}
+				}
+			default:
+				for _, a := range assignedObjs(info, n.Ast) {
+					if a == o {
+						assigned = true
+						res = append(res, reachingDef{n.ID, nil})
+					}
+				}
+			}
+		}
+		if !assigned {
+			work = append(work, n.Preds...)
+		}
+	}
+	return res
+}
